@@ -187,6 +187,12 @@ def evaluate(case, acc, seed_for_forms):
             other.with_base_module("r.zz_another_sub_system")
             o1, m1 = run(mine, ev)
             acc.count("diagram_rules_finished_on_a_copy_of_a_half_configured_rule:" + how)
+        elif rnd.random() < 0.15:
+            # the base module as a member of a str-mixin Enum (class Packages(str, Enum)) / an instance of a str subclass
+            from ..drive import typed_names
+
+            o1, m1 = run(r1.from_file(Path(short)).with_base_module(typed_names([BASE], rnd.choice(["enum", "strsub", "strenum"]))[0]), ev)
+            acc.count("diagram_rules_with_a_base_module_of_another_str_type")
         else:
             o1, m1 = run(r1.from_file(Path(short)).with_base_module(BASE), ev)
         o2, m2 = run(DiagramRule(should_only_rule=mode).from_file(Path(fq)).base_module_included_in_module_names(), ev)
